@@ -70,6 +70,10 @@ func (bf *Bitfield) Add(id hotstuff.ID) {
 
 // Contains returns true if the set contains the ID.
 func (bf Bitfield) Contains(id hotstuff.ID) bool {
+	if id == 0 {
+		// IDs start at 1: 0 (e.g. claimed by a peer in its connection metadata) is never a member and has no bit.
+		return false
+	}
 	byteIdx, bitIdx := index(id)
 	if len(bf.data) <= byteIdx {
 		return false
